@@ -149,6 +149,15 @@ CHECKS = {
             "reads further than 8 GiB behind the buffer may land in mapped memory unnoticed; work bound = max(1e6, "
             "4000*(n+members+16)) edges; one open known finding (checked builds, wire blockLength below the compiled one)",
             "DESIGN.md section 3, C06"),
+    "C18": ("exploration",
+            "generic trait dump driven by the tag lists plus named tag-path probes spelled from the schema model, compared "
+            "offline with expectations computed from the parsed schema",
+            "Every documented trait of every entity reachable through schema_traits/message_traits/group_traits/"
+            "composite_traits/enum_traits/set_traits tag lists is printed (optional members through detection, types "
+            "through is_same, value_type<->traits_tag round trip, all tag-kind predicates on every tag) and compared with "
+            "the model for corpus, random and clash schemas; tag lists are compared in schema order (type_tags as a set).",
+            "the python model encodes the documented presence/offset/inheritance rules; traits of built-in types are C16's",
+            "DESIGN.md section 3, C18"),
 }
 
 
